@@ -148,7 +148,9 @@ func vjVerify[N runtime.Number](cs *vjCase, voters grandpa.VoterSet[string], ord
 	return true, ""
 }
 
-func vjRun[N runtime.Number](t *testing.T, width string, res *vResult, beh, ci int, raw json.RawMessage, cs *vjCase, voters grandpa.VoterSet[string], dupVoter bool, orders [][]int) {
+// vjRun returns true when every order was accepted; otherWidthAccepted: the same case was
+// accepted in every order with the other number width.
+func vjRun[N runtime.Number](t *testing.T, width string, res *vResult, beh, ci int, raw json.RawMessage, cs *vjCase, voters grandpa.VoterSet[string], dupVoter bool, orders [][]int, otherWidthAccepted bool) bool {
 	type outcome struct {
 		ord []int
 		msg string
@@ -163,7 +165,7 @@ func vjRun[N runtime.Number](t *testing.T, width string, res *vResult, beh, ci i
 		if len(msg) >= 6 && msg[:6] == "panic:" {
 			res.Fail(beh, ci, "VerifyJustification", "panic", "no panic", fmt.Sprintf("%s (order %v)", msg, ord),
 				"C19/VerifyJustification/"+width+"/panic", []json.RawMessage{raw})
-			return
+			return false
 		}
 		if ok && accepted == nil {
 			accepted = &outcome{ord, ""}
@@ -182,6 +184,8 @@ func vjRun[N runtime.Number](t *testing.T, width string, res *vResult, beh, ci i
 		class := "accepts-unsound/ghost-or-ancestry"
 		if !cs.Res.Enough {
 			class = "accepts-unsound/no-supermajority-of-valid-members"
+		} else if dupVoter {
+			class += "/voter-listed-twice" // the GHOST moves when a repeated id's weights are not summed
 		}
 		fail("rejected", fmt.Sprintf("accepted (order %v)", accepted.ord), class)
 	}
@@ -192,6 +196,8 @@ func vjRun[N runtime.Number](t *testing.T, width string, res *vResult, beh, ci i
 			class = "rejects-complete/voter-listed-twice"
 		case orderDep:
 			class = "rejects-complete/order-dependent"
+		case otherWidthAccepted:
+			class = "rejects-complete/number-width-dependent"
 		}
 		fail("accepted", fmt.Sprintf("rejected (order %v): %s", rejected.ord, rejected.msg), class)
 	}
@@ -199,6 +205,7 @@ func vjRun[N runtime.Number](t *testing.T, width string, res *vResult, beh, ci i
 	if orderDep && !failed && cs.Res.Tolerant {
 		fail("same verdict in every order", fmt.Sprintf("accepted in %v, rejected in %v: %s", accepted.ord, rejected.ord, rejected.msg), "order-dependent")
 	}
+	return rejected == nil && accepted != nil
 }
 
 func TestVerifJustification(t *testing.T) {
@@ -250,8 +257,8 @@ func TestVerifJustification(t *testing.T) {
 			for i := 0; i < nOrders; i++ {
 				orders = append(orders, rng.Perm(n))
 			}
-			vjRun[uint32](t, "u32", res, b.ID, ci, raw, &cs, *voters, dupVoter, orders)
-			vjRun[uint64](t, "u64", res, b.ID, ci, raw, &cs, *voters, dupVoter, orders)
+			ok64 := vjRun[uint64](t, "u64", res, b.ID, ci, raw, &cs, *voters, dupVoter, orders, false)
+			vjRun[uint32](t, "u32", res, b.ID, ci, raw, &cs, *voters, dupVoter, orders, ok64)
 		}
 	}
 }
